@@ -8,6 +8,7 @@
 -/
 import GffGen.Bins
 import GffProofs.Props.C12
+import GffProofs.Props.C12b
 import Mathlib.Tactic.SplitIfs
 
 open GffModel GffModel.Bins
@@ -61,6 +62,18 @@ theorem gen_out_of_range (s e : Int) (fmt : CoordFmt) (h : ¬ GffProofs.C12.InRa
     GffGen.bins s e fmt true = .int 1 ∧ GffGen.bins s e fmt false = .set [1] := by
   rw [bins_eq_model, bins_eq_model]
   exact ⟨GffProofs.C12.bins_out_of_range_one s e fmt h, GffProofs.C12.bins_out_of_range_set s e fmt h⟩
+
+/-- `Feature.calc_bin` with both coordinates present is the translated `bins()` in its single-bin form -/
+theorem gen_calcBin (s e : Int) : Feature.calcBin (some s) (some e) = some (GffGen.bins s e .gff true) := by
+  rw [bins_eq_model]; rfl
+
+/-- the row written for a feature with integer coordinates carries the single bin the translated `bins()` gives them
+(`Feature.astuple` recomputes the bin from the current coordinates) -/
+theorem gen_row_bin (f : Feature) (id : Str) (hid : f.id = some id) (s e : Int)
+    (hs : f.start = some s) (he : f.stop = some e) :
+    ∃ r b, Row.ofFeature f = .ok r ∧ GffGen.bins s e .gff true = .int b ∧ r.bin = some b := by
+  obtain ⟨r, b, h1, h2, h3⟩ := GffProofs.C12.row_bin_some f id hid s e hs he
+  exact ⟨r, b, h1, by rw [bins_eq_model]; exact h2, h3⟩
 
 /-- non-vacuity: a concrete in-range feature and an overlapping query -/
 example : ∃ b bs, GffGen.bins 131000 131100 .gff true = .int b ∧ GffGen.bins 131072 262145 .gff false = .set bs ∧ b ∈ bs :=
